@@ -689,13 +689,17 @@ def evalOp (g : Graph) (env : Env) (op : OpDef) : Except String (List Tensor) :=
     -- params: input multiplier, left shift, diff_min, beta (float32 bits); rows = innermost dimension
     let a ← getIn env op 0
     let dt := g.dtype (outId op 0)
-    if g.dtype (inId op 0) != dt ∨ dt.bytes ≠ 1 then throw "unsupported:SOFTMAX:type"
+    if g.dtype (inId op 0) != dt ∨ dt.bytes > 2 then throw "unsupported:SOFTMAX:type"
     let depth := a.shape.getLastD 1
     if depth = 0 ∨ a.data.size % depth ≠ 0 then throw "softmax: shape"
+    let expLut := if dt.bytes = 2 then SoftmaxRef.expLut16 else #[]
+    let ooLut := if dt.bytes = 2 then SoftmaxRef.oneOverOnePlusXLut16 else #[]
     let mut out : Array Int := Array.mkEmpty a.data.size
     for r in [0:a.data.size / depth] do
       let row := (List.range depth).map fun c => a.data.getD (r * depth + c) 0
-      for v in SoftmaxRef.softmaxRow8 row (pI op 0 0) (pN op 0 1) (pI op 0 2) dt.lo dt.hi do
+      let res := if dt.bytes = 2 then SoftmaxRef.softmaxRow16 expLut ooLut row (pI op 0 0) (pI op 0 1)
+                 else SoftmaxRef.softmaxRow8 row (pI op 0 0) (pN op 0 1) (pI op 0 2) dt.lo dt.hi
+      for v in res do
         out := out.push v
     return [{ shape := a.shape, data := out }]
   | "RESHAPE" | "SQUEEZE" | "EXPAND_DIMS" =>
@@ -819,6 +823,11 @@ def verifyParams (g : Graph) (op : OpDef) : Except String Unit := do
   | "SOFTMAX" =>
     -- the 8-bit kernels require the output quantisation 1/256 with zero point = lowest value of the type
     let so ← g.scale1 o
+    if (g.dtype o).bytes = 2 then
+      -- int16: output scale 1/32768, zero points 0
+      if so ≠ 0x38000000 ∨ g.zp o ≠ 0 ∨ g.zp (inId op 0) ≠ 0 then throw "unsupported:SOFTMAX:output_quantisation"
+      expectEq "SOFTMAX int16 input multiplier" (some (pI op 0 0, pI op 0 1)) (SoftmaxRef.softmaxParams16 (pN op 0 3) (← g.scale1 (inId op 0)))
+    else
     if so ≠ 0x3B800000 ∨ g.zp o ≠ (g.dtype o).lo then throw "unsupported:SOFTMAX:output_quantisation"
     match SoftmaxRef.softmaxParams8 (pN op 0 3) (← g.scale1 (inId op 0)) with
     | none => throw "unsupported:scale_outside_normal_range:softmax"
